@@ -104,12 +104,43 @@ def gen_expr(rnd):
     return expr, arrays
 
 
+def gen_tie_expr(rnd, pinned=False):
+    """the same index set in a different order in every operand, with size-1 axes and a one-letter output:
+    the contracted indices then get equal places in tf_pwa.einsum.ordered_indices (regression of the
+    transposition inconsistency repaired in /repo 64ae4f6)"""
+    if pinned:
+        subs, out, sizes, batch, bsize = ["cbda", "bc", "cad", "dbac"], "b", {"a": 1, "b": 2, "c": 2, "d": 2}, 1, 1
+    else:
+        letters = "abcd"[: rnd.choice([3, 4])]
+        sizes = {ch: rnd.choice([2, 2, 3]) for ch in letters}
+        sizes[rnd.choice(letters)] = rnd.choice([1, 2])
+        nops = rnd.randrange(2, 5)
+        subs = []
+        for _ in range(nops):
+            k = rnd.randrange(2, len(letters) + 1)
+            subs.append("".join(rnd.sample(letters, k)))
+        used = sorted(set("".join(subs)))
+        out = rnd.choice(used)
+        batch, bsize = rnd.choice([0, 1]), rnd.choice([1, 2])
+    arrays = []
+    for s in subs:
+        shape = ([bsize] if batch else []) + [sizes[ch] for ch in s]
+        arrays.append(np.array([complex(rnd.uniform(-1, 1), rnd.uniform(-1, 1)) for _ in range(int(np.prod(shape)))]).reshape(shape))
+    pre = "..." if batch else ""
+    return ",".join(pre + s for s in subs) + "->" + pre + out, arrays
+
+
 def einsum_function_cases(ctx, rnd, n):
     import tensorflow as tf
     from tf_pwa.einsum import einsum
     cases = []
-    for k in range(n):
-        expr, arrays = gen_expr(rnd)
+    ntie = max(12, n // 4)
+    for k in range(n + ntie):
+        if k < n:
+            expr, arrays = gen_expr(rnd)
+        else:
+            expr, arrays = gen_tie_expr(rnd, pinned=(k == n))
+            ctx.count("einsum_tie_prone")
         ref = np.einsum(expr, *arrays)
         try:
             got = np.array(einsum(expr, *[tf.constant(a) for a in arrays]))
